@@ -15,7 +15,7 @@ from . import skeletons as sk
 from . import c05  # def-emitter-siblings is registered for C17 there
 from . import c08  # identity-key is registered for C17 there
 from . import c06  # wiring (`local` is the template's own namespace) is registered for C17 there
-from .common import calls, stmt_nodes, pn, access_paths, guards_of, return_leaves, arms, branch_paths
+from .common import calls, stmt_nodes, pn, access_paths, guards_of, return_leaves, arms, branch_paths, facts_at
 
 
 def _fmt_left(node):
@@ -211,7 +211,18 @@ def arg_precedence(ctx):
                     bad.append((s, "a path returns arguments that are not the Template's cache_args overridden by the call's (%s)" % (kind.get(s.value.id) if isinstance(s.value, ast.Name) else src(s.value))))
     ctx.check(not bad, "template-then-call.all-branches", db.where(bad[0][0]) if bad else db.where(gk), "a branch of _get_cache_kw lets Template cache_args override the call's arguments or drops them: %s" % (bad[0][1] if bad else ""), "on all %d paths: copy of Template cache_args updated with the call's kwargs, or its memo" % len(paths))
     ifs = [n for n in walk_func(gk) if isinstance(n, ast.If) and "pass_context" in src(n.test)]
-    ctx.check(P.has(gk, "if $c and self.impl.pass_context:\n    $k = $k.copy()\n    $k.setdefault('context', $c)"), "context-on-request", db.where(ifs[0]) if ifs else db.where(gk),
+    # the context is added under `context and impl.pass_context`, to a copy made just before
+    okc = False
+    for c_ in walk_func(gk):
+        if isinstance(c_, ast.Call) and P.matches(c_, "$k.setdefault('context', %s)" % pn(gk, 2)) and isinstance(c_.func.value, ast.Name):
+            fa_ = facts_at(c_, gk)
+            st_ = enclosing_stmt(c_)
+            par_ = getattr(st_, "_parent", None)
+            lst_ = next((getattr(par_, f_) for f_ in ("body", "orelse", "finalbody") if isinstance(getattr(par_, f_, None), list) and st_ in getattr(par_, f_)), [])
+            prev_ = lst_[lst_.index(st_) - 1] if st_ in lst_ and lst_.index(st_) > 0 else None
+            copied = isinstance(prev_, ast.Assign) and isinstance(prev_.targets[0], ast.Name) and prev_.targets[0].id == c_.func.value.id and P.matches(prev_.value, "$x.copy()")
+            okc = (pn(gk, 2), True) in fa_ and ("self.impl.pass_context", True) in fa_ and copied
+    ctx.check(okc, "context-on-request", db.where(ifs[0]) if ifs else db.where(gk),
               "the context is not passed exactly when the implementation asks (on a private copy of the kwargs)", "context added on a copy iff impl.pass_context")
     pop = [n for n in walk_func(gk) if isinstance(n, ast.Call) and dotted(n.func) == pn(gk, 1) + ".pop" and const(n.args[0]) == "__M_defname"]
     ctx.check(bool(pop), "defname-popped", db.where(gk), "__M_defname is not removed from the keyword arguments handed to the backend", "__M_defname popped")
